@@ -51,3 +51,28 @@ lemma("canary.dby.step.wrong", {"t": "int"}, "dby(t + 1) == dby(t) + SUM",
       modes=["gregorian"], note="false in gregorian: must be refuted")
 lemma("canary.week52", {"y": "int"}, "wiy(y) == 52",
       modes=["gregorian"], note="false: some years have 53 weeks")
+
+lemma("cal.key.order", {"y1": "int", "m1": "int", "d1": "int",
+                        "y2": "int", "m2": "int", "d2": "int"},
+      "(((y1, m1, d1) == (y2, m2, d2)) == (cal_abs(y1, m1, d1) == cal_abs(y2, m2, d2)))"
+      " and (((y1, m1, d1) < (y2, m2, d2)) == (cal_abs(y1, m1, d1) < cal_abs(y2, m2, d2)))",
+      assumes=["valid_cal(y1, m1, d1)", "valid_cal(y2, m2, d2)"],
+      note="lexicographic order of valid calendar dates is the order of day numbers")
+lemma("ord.key.order", {"y1": "int", "n1": "int", "y2": "int", "n2": "int"},
+      "(((y1, n1) == (y2, n2)) == (absday(y1, n1) == absday(y2, n2)))"
+      " and (((y1, n1) < (y2, n2)) == (absday(y1, n1) < absday(y2, n2)))",
+      assumes=["valid_ord(y1, n1)", "valid_ord(y2, n2)"],
+      note="lexicographic order of valid ordinal dates is the order of day numbers")
+
+lemma("day.split.unique", {"a1": "int", "r1": "real", "a2": "int", "r2": "real"},
+      "a1 == a2 and r1 == r2",
+      assumes=["0 <= r1 and r1 < 86400", "0 <= r2 and r2 < 86400",
+               "86400 * a1 + r1 == 86400 * a2 + r2"],
+      note="day number and second-of-day are determined by the instant")
+lemma("hms.split.unique", {"h1": "int", "i1": "int", "s1": "real",
+                           "h2": "int", "i2": "int", "s2": "real"},
+      "h1 == h2 and i1 == i2 and s1 == s2",
+      assumes=["0 <= i1 and i1 < 60 and 0 <= s1 and s1 < 60",
+               "0 <= i2 and i2 < 60 and 0 <= s2 and s2 < 60",
+               "3600 * h1 + 60 * i1 + s1 == 3600 * h2 + 60 * i2 + s2"],
+      note="h, m, s are determined by the second of day")
